@@ -27,7 +27,7 @@ REQUIRED = [
     'Ems.C07.blur_zero', 'Ems.C07.blur_blur', 'Ems.C07.blur_refusals', 'Ems.C07.cmask_shapes',
     'Ems.C07.grid_mask_eq_blur', 'Ems.C07.arakawa_mask_spec', 'Ems.C07.mask_monotone_arakawa',
     'Ems.C07.buffer_faces_sorted', 'Ems.C07.kept_faces_spec', 'Ems.C07.kept_faces_sorted',
-    'Ems.C07.renumber_contiguous', 'Ems.C07.renumber_order_irrelevant',
+    'Ems.C07.renumber_contiguous', 'Ems.C07.clip_mask_contiguous', 'Ems.C07.renumber_order_irrelevant',
     'Ems.C07.hit_order_numbering_violates',
 ]
 RULE = ('primitives: boolean arrays (thorough: every array of every shape 1..4 x 1..4; quick: a seeded sample of '
@@ -49,6 +49,21 @@ ASSUMPTIONS = [
     'edge numbering of a mesh without a stored edge_node table is emsarray\'s own; it is read back and validated against the generator\'s face-node lists before use',
 ]
 LEVEL_NOTE = 'GEOS predicates enter as an oracle (truth table); everything downstream of the hit list is proved.'
+
+# minimised past failures, run first on every run (finding F1: two quads sharing an edge, a line
+# along that edge; the spatial index returns the hits as [1, 0])
+CORPUS = [
+    {'recipe': {'conv': 'ugrid',
+                'enc': {'edge_dim_declared': False, 'fill': 'nan', 'start_index': 0, 'tables': [], 'transposed': False},
+                'faces': [[3, 0, 2, 5], [1, 4, 0, 3]],
+                'nodes': [[4, 4], [2, 2], [4, 6], [2, 4], [4, 2], [2, 6]]},
+     'wkt': 'LINESTRING (4 4, 4 6)', 'buffers': [0, 1], 'class': 'corpus:F1-minimal'},
+    {'recipe': {'conv': 'ugrid',
+                'enc': {'edge_dim_declared': True, 'fill': 'attr', 'start_index': 1, 'tables': ['edge_node'], 'transposed': False},
+                'faces': [[3, 0, 2, 5], [1, 4, 0, 3], [5, 2, 6, 7]],
+                'nodes': [[4, 4], [2, 2], [4, 6], [2, 4], [4, 2], [2, 6], [4, 8], [2, 8]]},
+     'wkt': 'POLYGON ((0 0, 10 0, 10 10, 0 10, 0 0))', 'buffers': [0, 1, 2], 'class': 'corpus:F1-cover-all'},
+]
 
 CONV_VARIANTS = ['cf1d', 'cf2d', 'shoc_simple', 'shoc_standard', 'ugrid', 'ugrid+edge']
 BUFFERS = [0, 1, 2, 3]
@@ -500,6 +515,14 @@ def subset(a, b) -> bool:
     return not (a & ~b).any()
 
 
+def run_corpus(ctx, items: list, fails: list, f1_lines: list) -> None:
+    for entry in CORPUS:
+        case = Case(entry['recipe'])
+        geom = shapely.from_wkt(entry['wkt'])
+        for b in entry['buffers']:
+            clip_case(ctx, case, geom, entry['class'], b, items, fails, f1_lines, None)
+
+
 def run_datasets(ctx, items: list, fails: list, f1_lines: list) -> None:
     rng = ctx.rng
     per_variant = ctx.budget(30, 150)
@@ -665,6 +688,7 @@ def run(ctx) -> None:
     fails: list = []       # (cost, signature, desc, message); reported smallest first
     f1_lines: list = []
     install_parallel_model(ctx)
+    run_corpus(ctx, items, fails, f1_lines)
     run_primitives(ctx, items, fails)
     run_datasets(ctx, items, fails, f1_lines)
     # report oracle failures smallest input first, so that the replay written is a minimal one
